@@ -51,9 +51,7 @@ func (h *NFSProcedureHandler) handleReaddir(body io.Reader, reply *RPCReply, aut
 	}
 
 	// R4: Copy attrs under RLock for dir check
-	dir.mu.RLock()
-	dirMode := dir.attrs.Mode
-	dir.mu.RUnlock()
+	dirMode := h.currentMode(dir)
 
 	if dirMode&os.ModeDir == 0 {
 		return nfsErrorWithPostOp(reply, NFSERR_NOTDIR), nil
@@ -184,9 +182,7 @@ func (h *NFSProcedureHandler) handleReaddirplus(body io.Reader, reply *RPCReply,
 	}
 
 	// R4: Copy attrs under RLock for dir check
-	dir.mu.RLock()
-	dirMode := dir.attrs.Mode
-	dir.mu.RUnlock()
+	dirMode := h.currentMode(dir)
 
 	if dirMode&os.ModeDir == 0 {
 		return nfsErrorWithPostOp(reply, NFSERR_NOTDIR), nil
